@@ -263,6 +263,11 @@ func (s *Server) getTargetInfo(ctx context.Context, targets map[configapi.Target
 
 	// Use the type/version overrides if they are specified
 	if ttv, ok := overrides.Overrides[string(targetID)]; ok {
+		if ttv == nil {
+			err := errors.NewInvalid("target version override for %s has no value", targetID)
+			log.Warn(err)
+			return nil, err
+		}
 		targetType = ttv.TargetType
 		targetVersion = ttv.TargetVersion
 	} else {
